@@ -72,32 +72,39 @@ CLAIMED = {
          "compared to 1e-11 cond. FALSE and recorded: tpCN on folded coordinates (F17), reflective + correlated covariance "
          "(F21), both with Lean counter-examples.",
          "DESIGN.md §6 C03"),
- "C04": ("Machine-checked proof in Lean 4 on ONE model term of compute_logw_and_logz (Model/Weights.lean) evaluated at the "
-          "reals, at reals with an arbitrary rounding after every operation, and at Float, plus a key-level model of the "
-          "per-key history lists and the results cache (Model/WeightsKeys.lean) and sampler-level theorems on "
-          "Model/ClosedLoop.lean + Model/Posterior.lean; translator G13 regenerates the function text, its call sites and the "
-          "cache discipline of StateManager; toleranced-Float suites on generated histories, call sequences and real (also "
-          "resumed) runs tie the models to the code.",
+ "C04": ("Machine-checked proof in Lean 4 on ONE source-derived model term of compute_logw_and_logz (Model/Weights.lean) "
+          "evaluated at the reals, at reals with an arbitrary rounding after every operation, and at Float, plus a key-level "
+          "model of the per-key history lists and the results cache (Model/WeightsKeys.lean) and sampler-level theorems on "
+          "Model/ClosedLoop.lean + Model/Posterior.lean / PosteriorX.lean; translator G13b compiles the Python AST of "
+          "compute_logw_and_logz, compute_results, compute_posterior and compute_evidence into Lean terms (Gen/WeightSrc.lean) "
+          "on every run and Props/C04Source proves by rfl / case split, for every scalar type incl. Float, that 21 model "
+          "definitions unfold to exactly those terms (32 theorems), G13 regenerates the call sites and the cache discipline of "
+          "StateManager; toleranced-Float suites on generated histories, call sequences and real (also resumed) runs tie the "
+          "models dynamically.",
          "For every well-formed history (T >= 1, every n_t >= 1, any real beta_t, z_t, logl; WF is the statement's own "
          "quantifier): logw = beta l - log sum_t (n_t/N) exp(beta_t l - z_t) per stored particle in stored order, logz = log "
-         "mean weight, normalised weights sum to one, invariance under ANY permutation of iterations (position-level form), "
-         "the mixture regrouped by distinct beta, the shift law, uniformity at beta = 0, exp arguments <= 0. Key level: on an "
-         "aligned history the function as it reads the real per-key lists is the model, any number of complete iterations "
-         "gives an aligned history, and for EVERY call sequence compute_results()['logw'] is never stale (cache discipline "
-         "regenerated by G13). Sampler level: at every loop-top state of any run - also resumed with another n_particles - "
-         "the formula holds, and posterior(return_logw=True) / evidence() expose exactly these numbers for every option "
-         "combination. Floating point: all outputs bounded and an evidence returned for |logl|, |z| <= 1e300 under H-IEEE "
-         "alone (standard rounding model of binary64 and numpy's exp/log: assumed, sampled on the platform every run by suite "
-         "ieee-H). Outside the statement (misaligned lists, non-finite inputs) the behaviour is characterised, not claimed. "
-         "Real StateManager / Sampler within 1e-9(1+scale).",
+         "mean weight, normalised weights sum to one, invariance under ANY permutation of iterations, the mixture regrouped "
+         "by distinct beta, the shift law, uniformity at beta = 0, exp arguments <= 0. Key level: on an aligned history the "
+         "function as it reads the real per-key lists is the model, and for EVERY call sequence compute_results()['logw'] is "
+         "never stale (cache discipline regenerated by G13). Sampler level: at every loop-top state of any run - also resumed "
+         "with another n_particles - the formula holds, and posterior(return_logw=True) / evidence() expose exactly these "
+         "numbers for every option combination. The arithmetic, tests, return tree and call-site literals of the model are "
+         "the current source's (G13b, every scalar type). Still hand-copied: numpy itself (logaddexp and its reduce as a left "
+         "fold, np.max / np.sum, broadcasting as nested map), list-level shape operations and which list instantiates which "
+         "parameter (pinned as text only). Floating point: all outputs bounded for |logl|, |z| <= 1e300 under H-IEEE alone "
+         "(standard rounding model of binary64 and numpy's exp/log: assumed, sampled every run by suite ieee-H). Outside the "
+         "statement (misaligned lists, non-finite inputs) the behaviour is characterised, not claimed. Real code within "
+         "1e-9(1+scale).",
          "DESIGN.md §6 C04"),
  "C05": ("Machine-checked proof in Lean 4 on four models of the reweighting step - Model/Reweight.lean generic in the metric "
           "oracle, the ESS-mode pipeline Model/Pipeline.lean, the closed-loop run Model/ClosedLoop.lean + "
           "Model/ClosedResume.lean in both metric modes, and Model/Reweight.lean evaluated at reals-with-NaN under an "
-          "arbitrary monotone rounding - with translator G1 regenerating the tolerances and G10 compiling the 26 decision "
-          "terms, statement skeletons and the writers of state['beta'] from steps/reweight.py; exact-dyadic and bit-exact "
-          "decision suites on the real Reweighter with an injected table oracle, whole-run / resume-run observers and "
-          "closed-loop replay tie the models to the code.",
+          "arbitrary monotone rounding - with translator G1 regenerating the tolerances and G10 compiling the 26 decision / "
+          "arithmetic terms (parameters ordered by where the source binds them, so an operand swap breaks a theorem), "
+          "statement skeletons and the writers of state['beta'] from steps/reweight.py, with Props/C05Source proving by rfl "
+          "for every scalar type incl. Float that the model's decision expressions are those terms (21 theorems; "
+          "source-derived model); exact-dyadic and bit-exact decision suites on the real Reweighter with an injected table "
+          "oracle, whole-run / resume-run observers and closed-loop replay tie the models to the code.",
          "On the closed-loop model of run_sampling (every World of external functions, every configuration, both metric "
          "modes), for every run that stays inside the model (checked by the replay on real runs): beta_0 = 0, non-decreasing, "
          "<= 1; warm-up holds beta = 0 while k n_particles < target; after an advance the pool's own ESS at the ESS-limited "
@@ -107,29 +114,34 @@ CLAIMED = {
          "clause for EVERY scalar type including Float, all 7 branches. Range, monotonicity and same-temperature also hold "
          "with NaN oracle answers under any monotone idempotent rounding. Continued runs (resume path, load_state(); run(), "
          "second run()) continue the schedule from the restored beta (three-way prologue; the old two-way prologue restarting "
-         "at 0 is the witness of F34). The model's decision expressions and literals are the source's (G10, rfl for every "
-         "scalar type). Remaining: the meaning of the rounded ESS comparison, termination and tightness UNDER ROUNDING and "
-         "+-inf answers are exercised bit-exactly by the Float suites only; the volume_variation function is a World "
-         "parameter (C20's).",
+         "at 0 is the witness of F34). The model's decision expressions, literals and operand order are the source's (G10, "
+         "rfl for every scalar type); the metric / evidence oracles and np.isfinite stay parameters, the loops are fuelled "
+         "recursions. Remaining: the rounded ESS comparison, termination and tightness UNDER ROUNDING and +-inf answers are "
+         "exercised bit-exactly by the Float suites only; volume_variation is a World parameter (C20's).",
          "DESIGN.md §6 C05"),
  "C06": ("Machine-checked proof in Lean 4 (incl. Lebesgue integrals over the offset and the product measure of n uniforms) on "
           "Model/Resample.lean and Model/ResampleX.lean - systematic_resample with numpy's pairwise np.sum inside, numpy's "
           "legacy choice with its kahan-sum validation, Resampler.run and the call sites in execute_iteration / posterior - "
-          "instantiated at the reals, at every scalar type and at rounded real arithmetic; no translator (hand-written models; "
-          "the constant SQRTEPS is compared at run time); exact-dyadic (complete offset partition), bit-exact Float and "
-          "exact-rational bound suites tie the models to the real routines and to real Sampler iterations.",
+          "instantiated at the reals, at every scalar type and at rounded real arithmetic; the systematic path and the "
+          "dispatch of Resampler.run are source-derived: translator G14 recompiles the AST of tools.systematic_resample and "
+          "Resampler.run into Gen/ResampleSrc.lean (24 terms, 6 tables) on every run and Props/C06Source proves, for every "
+          "scalar type incl. Float, that Model/Resample.lean unfolds to those terms (22 theorems, 16 by rfl); exact-dyadic "
+          "(complete offset partition), bit-exact Float and exact-rational bound suites tie the models to the real routines "
+          "and real Sampler iterations dynamically.",
          "For every n, every weight vector, every offset and every scalar type (so for the Float execution itself): the "
-         "systematic routine returns exactly n valid non-decreasing indices, IndexError exactly on the empty vector; the loop "
-         "spec fixes every index. Over the reals: with sum 1 and in the renormalising branch the closed-form count, the "
-         "floor/ceil law, the full copies law and unbiasedness (integral over u0 = n w_j); for EVERY sum |count_j - n w_j| < "
-         "1 + n|sum - 1|; a zero-weight particle is never selected (both schemes, every draw). Inside a run the array "
-         "Resampler.run and posterior receive is w/sum(w) with sum exactly 1, so the literal floor/ceil clause holds there "
-         "for any log-weight vector, in every annealing iteration of the pipeline model. Multinomial: numpy's validation "
-         "accepts iff non-empty, entrywise >= 0, |sum-1| <= 2^-26, then n valid indices, index law w_i/sum(w), n w_i/sum(w) "
-         "expected copies under H-iid (independent U[0,1) draws: assumed) and the assumption that numpy's choice refines the "
-         "transcribed model (tied bit for bit). Floating point: the count bound under H-fp (rounding model; audited per "
-         "operation on the real code every run); means in floats are oracle-only. The literal floor/ceil clause is FALSE "
-         "inside the tolerance band (known finding F20, reachable only by calling tools.systematic_resample directly).",
+         "systematic routine returns exactly n valid non-decreasing indices (IndexError exactly on the empty vector). Over "
+         "the reals: with sum 1 and in the renormalising branch the closed-form count, the floor/ceil law, the full copies "
+         "law and unbiasedness; for EVERY sum |count_j - n w_j| < 1 + n|sum - 1|; a zero-weight particle is never selected "
+         "(both schemes, every draw). Inside a run the array Resampler.run and posterior receive is w/sum(w) with sum exactly "
+         "1, so the literal floor/ceil clause holds there for any log-weight vector, in every annealing iteration of the "
+         "pipeline model. Each pass of the loop, the renormalisation test, SQRTEPS, the cap and the scheme dispatch are the "
+         "current source's (G14); hand-copied remain the loop-to-recursion shape, the numpy idioms (flatnonzero, "
+         "broadcasting, arange), np.sum's pairwise algorithm, numpy's choice and Model/ResampleX.lean. Multinomial: numpy's "
+         "validation accepts iff non-empty, entrywise >= 0, |sum-1| <= 2^-26, then n valid indices, index law w_i/sum(w), "
+         "expected copies n w_i/sum(w) under H-iid (independent U[0,1) draws: assumed) and the assumption that numpy's choice "
+         "refines the transcribed model (tied bit for bit). Floating point: the count bound under H-fp (audited per operation "
+         "on the real code every run); means in floats are oracle-only. The literal floor/ceil clause is FALSE inside the "
+         "tolerance band (known finding F20).",
          "DESIGN.md §6 C06"),
  "C07": ("Machine-checked proof in Lean 4 by induction over whole runs on the StateManager-level record model "
           "Model/RecSM.lean + Model/RecSM2.lean (None slots, per-key histories, blob gate, one MCMC pass with fold / bounds "
@@ -165,11 +177,12 @@ CLAIMED = {
          "t0 + j k and final) holds, at the end of the run, the complete pickle of the world after j iterations - under "
          "H_dill (loads(dumps d) = d, a strict prefix does not load: trusted, exercised by every suite). What load restores "
          "(n_total, logz_err, generator position; never reseeds) is proved on regenerated tables. Resume: numbering, calls "
-         "and history prefix continue; path and manual resume give the same world, a second run() continues; the loop exits with C12's "
-         "postconditions for the resuming call's n_total. That the resumed run IS the remainder of the uninterrupted one "
-         "needs H_det (an iteration is a function of StateManager, generator position, component state) and H_comp "
-         "(independent of component state: proved for cluster_every = 1 or clustering off, false in general with a Lean "
-         "witness; the suite compares bit-identity where predicted). 'Saving works in every configuration' is execution only.",
+         "and history prefix continue; path and manual resume give the same world, a second run() continues; the loop exits "
+         "with C12's postconditions for the resuming call's n_total. That the resumed run IS the remainder of the "
+         "uninterrupted one needs H_det (an iteration is a function of StateManager, generator position, component state) and "
+         "H_comp (independent of component state: proved for cluster_every = 1 or clustering off, false in general with a "
+         "Lean witness; the suite compares bit-identity where predicted). 'Saving works in every configuration' is execution "
+         "only.",
          "DESIGN.md §6 C08"),
  "C09": ("Machine-checked proof in Lean 4 on adaptive RNG effect programs (interaction trees over an abstract generator, "
           "Model/RngRun.lean: seeding, draws, private generators, get_state/set_state through run / save / load / resume), on "
@@ -196,41 +209,47 @@ CLAIMED = {
           "nothing read from a tape, only a World of external functions abstract) and over the tape-driven pipeline "
           "Model/Pipeline.lean, plus rounded-arithmetic bounds on the generated acceptance expression, with translators G4 "
           "(kernel expressions), G5 (tables) and G9 (where a log-likelihood or log-weight can be read: Gen/Shift.lean) "
-          "regenerated from source; toleranced paired real runs, closed-loop and tape replays, checkpoint comparison and an "
-          "exact rounding-bound suite tie the models to the code.",
+          "regenerated from source; toleranced paired real runs judged on the statement's observables, a correspondence-only "
+          "comparison of every internal call (paired-shift-internals), closed-loop and tape replays, checkpoint comparison and "
+          "an exact rounding-bound suite tie the models to the code.",
          "C10_cl_run_from: for every World (likelihood, prior draw, random stream, trainer, proposal generator, volume "
          "metric), every configuration, every constant c and every well-formed start state (fresh, loaded, or a second "
          "run()), running the closed-loop model on like + c gives the same schedule in BOTH metric modes, the same trial "
          "temperatures and oracle calls, ESS sequence, trainer input, proposals, step sizes, number of mutation steps and of "
          "iterations, stream consumption, counters, particles, normalised weights and all 16 posterior() option combinations; "
          "every log-likelihood + c, every recorded evidence + beta_t c, the final evidence exactly + c; warm-up redraw loop "
-         "and -inf replacement identical; both runs fail together; checkpoints differ only in l and z_t. The former "
-         "hypothesis H_tape (the shifted run consumes the shifted tape) is no longer needed. That the real trainer, sigma "
-         "adaptation, stop rule and guard read no log-likelihood and that every log-weight is used normalised and max-shifted "
-         "is decided on G9/G5 tables regenerated every run. Rounding: one accept/reject decision flips only if the uniform is "
-         "within an explicit bound of alpha (H_round: standard rounding model, assumed; the inequality is checked on the "
-         "doubles of every recorded step), ESS within exp(+-12e) for perturbed stored data; the whole run under rounding is "
-         "oracle-only (paired runs to 1e-8 with a c/2, 2c re-test).",
+         "and -inf replacement identical; both runs fail together; checkpoints differ only in l and z_t. H_tape is no longer "
+         "needed. That the real trainer, sigma adaptation, stop rule and guard read no log-likelihood and that every "
+         "log-weight is used normalised and max-shifted is decided on G9/G5 tables regenerated every run. Rounding: one "
+         "accept/reject decision flips only if the uniform is within an explicit bound of alpha (H_round: assumed; checked on "
+         "the doubles of every recorded step), ESS within exp(+-12e) for perturbed stored data; the whole run under rounding "
+         "is oracle-only: the property oracle reads only the statement's observables through the public API, excuses a "
+         "decision flip only with a rounding tie in the same iteration and re-tests at c/2, 2c; internal comparisons are "
+         "correspondence-only.",
          "DESIGN.md §6 C10"),
  "C11": ("Machine-checked proof in Lean 4 on a linear-space, Rat-executable model of the warm-up evidence rule "
           "(Model/Warmup.lean), the redraw loop (Model/WarmupR.lean), the pipeline with that loop (Model/Pipeline.lean + "
           "Model/PipelineR.lean, both reweighting modes), C07's record model Model/RecSM2.lean and the finite-space mean-field "
-          "lemmas of Lemmas/MIS.lean, incl. expectation, variance and concentration over product laws; no translator "
-          "(hand-written models); exact-dyadic scripted-batch suites on the real Mutator / Sampler, an exact record suite, a "
-          "toleranced whole-run replay and a suite on numpy's own stream tie them to the code.",
+          "lemmas of Lemmas/MIS.lean, incl. expectation, variance and concentration over product laws; the warm-up models are "
+          "source-derived: translator G19 recompiles the beta == 0 branch of Mutator.run into Gen/WarmupSrc.lean (16 terms, 10 "
+          "tables) on every run and Props/C11Source proves, for every scalar type incl. Float and Rat, that Model.WarmupR, "
+          "Model.Warmup.batchZR and Model.PipelineR (warmupL, iterateL) are those terms (21 theorems, 15 by rfl, 6 by list "
+          "combinatorics); exact-dyadic scripted-batch suites on the real Mutator / Sampler, an exact record suite, a "
+          "toleranced whole-run replay and a suite on numpy's own stream tie them dynamically.",
          "For EVERY tape, any number of warm-up iterations, both reweighting modes and nothing assumed about which draws are "
          "finite: the warm-up returns only finite log-likelihoods, each stored row is a whole (u, T u, L(T u)) record of one "
          "point of ONE drawn block, the loop keeps the first block with a finite draw and counts every draw; beta stays 0 and "
          "the committed evidence is n_fin/n_drawn when draws were -inf or discarded, else the harmonic mean of the earlier "
          "values, so every recorded warm-up evidence lies between the smallest and largest recorded fraction - counted once, "
-         "nothing compounds (the old compounding rule F7 and the stored all -inf batch F8 are theorems about the pre-fix "
-         "code). No -inf proposal is accepted at beta > 0. The final evidence of the model is the log pool mean of the "
-         "mixture weight with the RECORDED normalisers. Under H_iid (finiteness indicators independent Bernoulli(f): PRNG "
-         "idealisation; its structural half - one fresh block per pass, every row evaluated once, every draw counted - is "
-         "checked on the real code every run): E[Z_1] = f sum_j r^j/(j+1) with f <= E <= f/(1-r), r = (1-f)^n (not exactly "
-         "unbiased: theorem), variance f(1-f)/n, Chebyshev, weak LLN, whole-phase concentration of logz at log f, marginal "
-         "law of a stored particle. 'Converges to the supported integral' is proved only in the mean-field recursion "
-         "(H_meanfield: nobody discharges it; false as an exact finite-N identity by C01).",
+         "nothing compounds (F7 / F8: theorems about the pre-fix code). No -inf proposal is accepted at beta > 0. The cap, "
+         "loop test, counters, evidence rule, path conditions of the replacement and the arguments of np.random.choice are "
+         "the current source's (G19); hand-copied remain the semantics of numpy's fancy assignment (scatter), np.isinf as "
+         "'none', and the record-level twin RecSM2 (string tables + exact suite). Under H_iid (finiteness indicators "
+         "independent Bernoulli(f): PRNG idealisation; its structural half is checked on the real code every run): E[Z_1] = f "
+         "sum_j r^j/(j+1) with f <= E <= f/(1-r), r = (1-f)^n (not exactly unbiased: theorem), variance f(1-f)/n, weak LLN, "
+         "whole-phase concentration of logz at log f, marginal law of a stored particle. 'Converges to the supported "
+         "integral' is proved only in the mean-field recursion (H_meanfield: nobody discharges it; false as an exact finite-N "
+         "identity by C01).",
          "DESIGN.md §6 C11"),
  "C12": ("Machine-checked proof in Lean 4 on the composed run model Model/RunEntry.lean (the whole run_sampling with its "
           "three-way entry, n_total attribute, guard, epilogue, evidence, on the closed-loop state of Model/ClosedLoop.lean) "
@@ -257,87 +276,101 @@ CLAIMED = {
           "every pool value with a pool whose tasks complete in an arbitrary order (Model/LLEval.lean), a control-flow model "
           "of the call counter over whole fresh / resumed / continued runs with every numerical part opaque "
           "(Model/CallsRun.lean), the older table interpreter Model/Dispatch.lean and the shared pipeline Model/Pipeline.lean "
-          "fed through the evaluator; translator G6 regenerates the dispatch branches, every likelihood call site, every "
-          "increment and every writer of 'calls' from source; exact and bit-exact suites on the real code under many "
-          "evaluation strategies tie them.",
+          "fed through the evaluator; source-derived: translator G21 compiles every branch test, literal, index and counter "
+          "update of the likelihood path into Gen/LogLikeSrc.lean on every run and Props/C13Source pins 25 model definitions "
+          "by extensional equality for every input (26 theorems; Props/C13SourceTie identifies the tables used), over the "
+          "hand-written Python primitive semantics of Model/LLPy.lean; G6 regenerates the dispatch tables, likelihood call "
+          "sites, increments and every writer of 'calls'; exact and bit-exact suites on the real code under many evaluation "
+          "strategies tie them dynamically.",
          "For every pool value (None, every int incl. negatives and bools, objects with or without map) dispatch is a closed "
          "form and fails only for a map-less non-int object. For every permutation of task completions (H_perm = the "
          "statement's 'any completion order') the pool model IS the serial map: logl, blobs (plain dtypes) and even failures "
-         "are identical under every point-by-point strategy; handing results back in completion order would break this (Lean "
-         "witness). For every Algo (all numerical parts opaque) the whole run - final state, counter, batches asked - is a "
-         "function of the evaluator's values only, hence identical under any two strategies; on the pipeline model this holds "
-         "verbatim at Float. Counter: after run_sampling calls = start value + number of points in all batches handed to "
-         "_log_like = length of the evaluation log, for any sequence of warm-up (k redraws give k+1 batches), annealing "
-         "(adaptive step count within proved bounds), resumed and second runs; the list of ALL writers of 'calls' in the "
-         "package is regenerated and equals the model's. Assumed: hvec (vectorised likelihood pointwise equal: the "
-         "statement's premise), H_rng (likelihood and pool do not touch numpy's global generator), a real pool is an instance "
-         "of the pool model - checked every run on nine pool doubles, a real ThreadPool and executors. Not covered: the "
-         "progress bar's display of calls.",
+         "are identical under every point-by-point strategy; For every Algo (all numerical parts opaque) the whole run - "
+         "final state, counter, batches asked - is a function of the evaluator's values only, hence identical under any two "
+         "strategies; on the pipeline model verbatim at Float. Counter: after run_sampling calls = start value + number of "
+         "points in all batches handed to _log_like = length of the evaluation log, for any sequence of warm-up (k redraws "
+         "give k+1 batches), annealing, resumed and second runs; ALL writers of 'calls' in the package are regenerated. The "
+         "tests, literals, indices and counter arithmetic of the model are the current source's (G21, every input); "
+         "hand-copied remain the meaning of each Python primitive (Model/LLPy.lean), map / pool.map, numpy's blob packing, "
+         "and the control skeleton of the run model (G6 string facts + suites). Assumed: hvec (vectorised likelihood "
+         "pointwise equal: the statement's premise), H_rng (likelihood and pool do not touch numpy's global generator), a "
+         "real pool is an instance of the pool model - checked every run on nine pool doubles, a real ThreadPool and "
+         "executors. Not covered: the progress bar.",
          "DESIGN.md §6 C13"),
  "C14": ("Machine-checked proof in Lean 4 on list models of label-to-mode lookup (Model/Modes.lean), the ModeStatistics "
           "constructor with its positive-definiteness gate (Model/ModeGate.lean), the clustering cadence as a state machine "
           "with fit generations across run / save / load / resume / crash-and-rerun (Model/Cadence.lean, Model/CadenceX.lean) "
           "and one annealing iteration Trainer.run -> Resampler.run -> mode_index with the contracts of C15, C19 and C20 "
-          "plugged in as theorems (Model/TrainStep.lean); translator G1 regenerates DOF_FALLBACK (the rest is hand-modelled); "
-          "exact suites on the real ModeStatistics / Trainer / Resampler / Mutator, exact event strings and data flow on real "
-          "Samplers, and a toleranced Cholesky-contract check tie them.",
-         "For every valid weight vector, every history, every raw assignment (C14_run_model, the statement assembled end to "
-         "end): at mutation every active particle's label is mapped to an index < K of an existing mode; the label written "
-         "back is a training label and a label that has a mode is kept, one without goes to a mode at minimal distance; the "
-         "mode at that index was fitted from exactly the training particles carrying that label and its mean lies in their "
-         "bounding box; scale matrix symmetric; 0 < nu <= max(1e6, fallback); K_modes <= K_fit <= n_max_clusters for a fresh "
-         "and for a reused fit. For every cluster_every >= 1, every beta schedule and every sequence of run / save / "
-         "load_state / resume on a fresh or used sampler / iteration that raised and was re-run: both predicts of an "
-         "iteration are served by ONE fit generation, the latest of the existing object, and no predict precedes the first "
-         "fit. Remaining: H_lapack (numpy inv + cholesky return on a symmetric matrix iff all Gauss-Jordan pivots are "
-         "positive; the gate is proved equal to positive definiteness on PSD input; compared with the real constructor every "
-         "run away from the knife edge) for 'scale matrix positive definite'; IEEE finiteness and float symmetry are run-time "
-         "oracles. The constructor refusing a degenerate cluster (exactly: a resample constant in a coordinate) is "
-         "characterised by a theorem and stays known finding F24; the old raw-index lookup and the old cadence are kept as "
-         "counter-examples of the two repaired defects.",
+          "plugged in as theorems (Model/TrainStep.lean); source-derived: translator G20 recompiles mode_index, the label "
+          "handling of from_particles, the __init__ gate, Trainer.run and Resampler.run into five sections of "
+          "Gen/ModesSrc.lean on every run (numpy idioms read through Model/NpModes.lean) and Props/C14Source proves that 27 "
+          "model definitions are the generated terms for every input and scalar type (41 theorems), G1 regenerates "
+          "DOF_FALLBACK; exact suites on the real ModeStatistics / Trainer / Resampler / Mutator, exact event strings and data "
+          "flow on real Samplers, and a toleranced Cholesky-contract check tie them dynamically.",
+         "For every valid weight vector, every history, every raw assignment: at mutation every active particle's label is "
+         "mapped to an index < K of an existing mode; the label written back is a training label, a label that has a mode is "
+         "kept, one without goes to a mode at minimal distance; the mode at that index was fitted from exactly the training "
+         "particles carrying that label and its mean lies in their bounding box; scale matrix symmetric; 0 < nu <= max(1e6, "
+         "fallback); K_modes <= K_fit <= n_max_clusters. For every cluster_every >= 1, every beta schedule and every sequence "
+         "of run / save / load / resume / crash-and-rerun: both predicts of an iteration are served by ONE fit generation, "
+         "the latest of the existing object, and no predict precedes the first fit. The lookup, gate, cadence test, branch "
+         "traces and call arguments of Trainer.run / Resampler.run are the current source's (G20); hand-copied remain the "
+         "numpy primitives (unique, where, searchsorted, argmin, shapes), the reading of a trace and the monadic glue of the "
+         "iteration (tied by suites). Remaining: H_lapack (inv + cholesky return iff all Gauss-Jordan pivots are positive; "
+         "checked against the real constructor every run) for 'positive definite'; H_pointwise (predict is a map over rows; "
+         "suite predict-batch-independence); IEEE finiteness and float symmetry are run-time oracles. The constructor "
+         "refusing a degenerate cluster (a resample constant in a coordinate) is characterised by a theorem and stays known "
+         "finding F24.",
          "DESIGN.md §6 C14"),
  "C15": ("Machine-checked proof in Lean 4 on scalar-polymorphic executable models of the whole GaussianMixture "
           "(Model/GMM.lean: Cholesky log-density with a refusal oracle, log-space E-step, M-step of Model/EM.lean, lower "
           "bound, EM loop, weighted k-means++ from a rand() tape, restarts, predict, bic) and the whole "
-          "HierarchicalGaussianMixture (Model/HFit.lean: normalisation, BIC-gated split loop with the child labels computed, "
-          "final fits, predict / predict_proba on both paths; Model/HGMM.lean is the earlier recorded-decision loop), by loop "
-          "invariants and list induction; no translator (hand-written models); toleranced whole-fit suites, exact split "
-          "replay, real-vs-real replication and the statement's own oracle on every real fit tie them to cluster.py.",
+          "HierarchicalGaussianMixture (Model/HFit.lean, with Model/HGMM.lean the split loop), by loop invariants and list "
+          "induction; source-derived: translator G18 compiles the AST of cluster.py into Gen/ClusterSrc.lean (49 terms over "
+          "the numpy vocabulary Model/NpSrc.lean, 15 statement-skeleton tables of 211 statements, literals in "
+          "Model/ClusterLits.lean) on every run and Props/C15Source proves by rfl / structural case splits, for every scalar "
+          "type incl. Float, that about 45 model definitions unfold to those terms (57 theorems); toleranced whole-fit suites, "
+          "exact split replay, real-vs-real replication, a literal suite and the statement's own oracle on every real fit tie "
+          "them to cluster.py dynamically.",
          "For every data set, weights >= 0 with positive sum, K >= 1, every rand() tape in [0,1) and EVERY refusal behaviour "
          "of scipy's density: fit returns with 1 <= n_iter_ <= max_iter; weights on the simplex; covariances symmetric PSD "
          "('full') / entries >= 0 ('diag'); the mean of every component with mixing weight >= tiny inside the bounding box; "
-         "every E-step row a probability vector (the rule before 632b97e was not: theorem, finding F30); integer weights "
-         "equivalent to replication for the WHOLE fit (same tape, same n_iter_, converged_, lower_bound_). Hierarchical "
-         "model, for every scalar instance (so also Float with NaN / inf queries) and with no oracle hypothesis: labels "
-         "partition the training points into [0,K), 1 <= K <= max_iterations + 1, nothing split or every final cluster >= "
-         "min_points, predict in [0,K) on both paths for arbitrary queries, cluster_weights_ and predict_proba rows on the "
-         "simplex (reals). Remaining: H_scipy (multivariate_normal.logpdf is the Gaussian log-density of the lower triangle "
-         "or raises; which matrices it refuses is arbitrary - the formula is checked every run incl. all three except "
-         "branches); H_round (monotone idempotent rounding fixing 0 and 1) only for the float reading of the E-step; "
-         "'tied'/'spherical' outside; max_iter = 0 / n_init = 0 excluded. Oracle-only: the bic value, NaN rows of "
-         "predict_proba in floats, posterior semantics of 'diag' prediction.",
+         "every E-step row a probability vector (F30: the old rule was not); integer weights = replication for the WHOLE fit. "
+         "Hierarchical model, for every scalar instance (so also Float with NaN / inf queries) and with no oracle hypothesis: "
+         "labels partition the training points into [0,K), 1 <= K <= max_iterations + 1, nothing split or every final cluster "
+         ">= min_points, predict in [0,K) on both paths, cluster_weights_ and predict_proba rows on the simplex (reals). "
+         "M-step, covariances, initialisation, E-step entry, lower bound, bic, convergence / restart tests, split loop, "
+         "threshold and all literals are the current source's (G18); hand-copied remain the meaning of each numpy idiom "
+         "(Model/NpSrc.lean), the Option encoding of -inf, the assembly of per-component pieces, and normalisation / predict "
+         "/ predict_proba of HFit (tied by hfit-T only). Remaining: H_scipy (logpdf is the Gaussian log-density of the lower "
+         "triangle or raises; which matrices it refuses is arbitrary; checked every run); H_round only for the float reading "
+         "of the E-step; 'tied'/'spherical' outside. Oracle-only: bic value, NaN rows of predict_proba in floats, 'diag' "
+         "prediction semantics.",
          "DESIGN.md §6 C15"),
  "C16": ("Machine-checked proof in Lean 4 on the scalar-polymorphic model of apply_boundary_conditions / check_bounds "
           "(Model/Boundary.lean) and of their Python glue - column updates of 2-D arrays, None arguments, set arithmetic, "
           "early exit, the two np.all passes, the call site in BaseMCMCRunner.run (Model/BoundaryPy.lean) - at the reals, at "
           "rounded reals under an arbitrary monotone idempotent rounding, and for every scalar instance incl. Float, Float32 "
-          "and Rat, plus Lebesgue push-forward and kernel reversibility of the folded proposal in d dimensions; no translator "
-          "(the index validation cited is C18's G2 table); exact-dyadic, bit-exact (binary64 and binary32) and own-oracle "
-          "suites on the two functions, whole calls, the real call site and SamplerConfig tie them.",
+          "and Rat, plus Lebesgue push-forward and kernel reversibility of the folded proposal in d dimensions; "
+          "source-derived: translator G15 compiles both functions from mcmc.py into Gen/BoundarySrc.lean (terms, skeleton and "
+          "call-site tables) on every run and Props/C16Source proves that all 14 model definitions are that compiled source "
+          "for every scalar type (18 theorems, every scalar tie a literal rfl); exact-dyadic, bit-exact (binary64 and "
+          "binary32), call-sequence and own-oracle suites on the two functions, whole calls, the real call site and "
+          "SamplerConfig tie them dynamically.",
          "For every real vector, every index lists (duplicates, overlaps, out-of-range) and every scalar instance: "
          "non-designated coordinates untouched; over the reals periodic = x - floor x in [0,1), reflective = distance to the "
-         "nearest even integer in [0,1] (even, period 2, identity on [0,1]), the map idempotent, check_bounds accepts iff all "
-         "remaining coordinates lie in [0,1] and commutes with the map. The Python glue is proved to be the core maps: a 2-D "
-         "input is folded column by column = row by row, None skips the loop, the check returns one flag per row also in the "
-         "early exit and for zero rows; at the call site each walker is 'fold, check the folded point, keep it or the current "
-         "point'. Measure theory, unconditional: the preimage families are the whole fibre and the label sum is the density "
-         "of the law of fold(x + xi) for any mix of coordinate kinds in any dimension, with the mass of k; reversibility of "
-         "the folded kernel and of the fold-then-reject sub-kernel under the sharp hypothesis SignInv (density invariant "
-         "under negating reflective coordinates - false for the sampler's correlated covariance: F21 under C03). Floating "
-         "point: range [0,1] and idempotence modulo the periodic end points 0 ~ 1 under H_round (monotone idempotent rounding "
-         "fixing 0 and 1: assumed), closeness under the named accuracy hypothesis Hacc; both checked on the real code every "
-         "run. Indices are ints in range, not bools: an assumption discharged by SamplerConfig since b8d82fc and checked by "
-         "suite index-validation.",
+         "nearest even integer in [0,1], the map idempotent, check_bounds accepts iff all remaining coordinates lie in [0,1] "
+         "and commutes with the map. The Python glue is proved to be the core maps (2-D input column by column = row by row, "
+         "None skips the loop, one flag per row also in the early exit), and both functions as modelled ARE the compiled "
+         "current source (G15); hand-copied remain the numpy dictionary (%, np.mod ==, np.where, u[..., idx], set operations, "
+         "np.all, &), the mask substitution at the call site and np.atleast_1d. Measure theory, unconditional: the label sum "
+         "is the density of the law of fold(x + xi) for any mix of coordinate kinds in any dimension, with the mass of k; "
+         "reversibility of the folded kernel and of the fold-then-reject sub-kernel under the sharp hypothesis SignInv (false "
+         "for the sampler's correlated covariance: F21 under C03). Floating point: range [0,1] and idempotence modulo the "
+         "periodic end points 0 ~ 1 under H_round (monotone idempotent rounding fixing 0 and 1: assumed), closeness under the "
+         "named accuracy hypothesis Hacc; both checked on the real code every run. Indices are ints in range, not bools: "
+         "discharged by SamplerConfig since b8d82fc and checked by suite index-validation; statelessness across calls is "
+         "checked by suite sequence-F.",
          "DESIGN.md §6 C16"),
  "C17": ("Machine-checked invariant proof in Lean 4 by induction over op sequences on three reference-level models of "
           "StateManager - a flat heap with ghost sets escaped / imported (Model/StateMgr.lean), its extension by "
@@ -386,45 +419,52 @@ CLAIMED = {
  "C19": ("Machine-checked proof in Lean 4 with Mathlib matrices (affine invariance of the Mahalanobis form, induction over "
           "the ECME loop) and on the executable scalar-polymorphic models Model/Student.lean (initialisation, loop, "
           "Gauss-Jordan solve, fallback), Model/StudentNu.lean (func0, scipy's bisect and opt_nu, the function-driven loop "
-          "fitF) and Model/StudentModes.lean (ModeStatistics.from_particles / from_global with the weighted resampling, the "
-          "four Trainer.run paths, the dof the kernel reads), the list twin proved equal to the matrix-level trace; no "
-          "translator (constants compared at run time); bit-exact bisect / opt_nu suites, a toleranced replay of every fit "
-          "iterate, exact dof-path and kernel-handoff suites and the property's own oracle tie them.",
-         "For every data set with n >= 2, every digamma function psi (a parameter: nothing about it is assumed), every "
-         "tolerance and max_iter, on the executed model fitF, which is proved equal at the reals to the matrix-level trace: "
-         "the location stays inside the bounding box; the scale matrix is symmetric and, for data not inside an affine "
-         "hyperplane, positive definite at every iterate - for degenerate data at most one update happens before the Cholesky "
-         "exit and no exception escapes; the returned nu is infinite or in (0, 1e6], being a point of scipy's bisect bracket "
-         "(model of bisect tied bit for bit to the installed scipy), an exact zero or sign change of the score within "
-         "tolerance, with the no-sign-change ValueError an explicit exit and scipy's RuntimeError impossible; the returned nu "
-         "is the one that produced the returned (mu, Sigma). Equivariance of the whole fit under every non-zero "
-         "per-coordinate scaling, translation and permutation, and of the whole ModeStatistics construction incl. resampling. "
-         "Non-finite dof are replaced by the configured fallback on all four Trainer paths and whatever mode index the runner "
-         "reads. Remaining: H_lapack (solve raises iff singular, cholesky iff not positive definite - the model's pivot "
-         "criteria are proved equivalent; LAPACK checked away from rcond < 1e-6) and H_ieee (no rounding in any theorem). "
-         "Oracle-only, every run: recovery of generating parameters (fixed-seed large samples) and the law of the weighted "
-         "resampling.",
+          "fitF) and Model/StudentModes.lean (from_particles / from_global with the weighted resampling, the four Trainer.run "
+          "paths, the dof the kernel reads), the list twin proved equal to the matrix-level trace; source-derived: translator "
+          "G17 compiles student.py and the two ModeStatistics constructors into Gen/StudentSrc.lean (37 scalar kernels and "
+          "terms, skeletons of 44 + 26 + 13 statements, three independent sections) on every run and Props/C19Source proves "
+          "that the model definitions unfold to them for every scalar type incl. Float (41 theorems, all rfl but five); "
+          "bit-exact bisect / opt_nu suites, a toleranced replay of every fit iterate, exact dof-path, kernel-handoff and "
+          "trainer-sequence suites and the property's own oracle tie them dynamically.",
+         "For every data set with n >= 2, every psi (digamma: a parameter), tolerance and max_iter, on the executed model "
+         "fitF (= the matrix-level trace at the reals): the location stays inside the bounding box; the scale matrix is "
+         "symmetric and, for data not inside an affine hyperplane, positive definite at every iterate - for degenerate data "
+         "at most one update happens before the Cholesky exit and no exception escapes; the returned nu is infinite or in (0, "
+         "1e6], a point of scipy's bisect bracket (bisect model tied bit for bit to the installed scipy), a zero or sign "
+         "change of the score within tolerance, scipy's RuntimeError impossible; the returned nu is the one that produced the "
+         "returned (mu, Sigma). Equivariance of the whole fit under every non-zero per-coordinate scaling, translation and "
+         "permutation, and of the whole ModeStatistics construction incl. resampling. Non-finite dof are replaced by the "
+         "configured fallback on all four Trainer paths. Weights, update, score function, bracket, loop tests and exits, "
+         "fallback and call arguments are the current source's (G17); hand-copied remain the models of the numpy / scipy "
+         "primitives (median, cov, var, dot, solve, cholesky, bisect, choice), the broadcasting layout and the reading of "
+         "exceptions. Remaining: H_lapack (solve raises iff singular, cholesky iff not positive definite; pivot criteria "
+         "proved equivalent) and H_ieee (no rounding in any theorem). Oracle-only, every run: parameter recovery and the law "
+         "of the weighted resampling.",
          "DESIGN.md §6 C19"),
  "C20": ("Machine-checked proof in Lean 4 (Cauchy-Schwarz on lists; numpy's linear percentile and linspace on a merge-sorted "
           "list; Mathlib matrices for the volume metric; an error calculus for rounded sums) on the executable models "
           "Model/Ess.lean, Model/Trim.lean, Model/VolVar.lean (volume_variation with its four branches, proved equal to the "
           "matrix model) and Model/TrimSites.lean (the call sites in Trainer.run, _compute_metric_and_weights, compute_ess "
-          "with -inf), with translator G1 regenerating TRIM_ESS / TRIM_BINS; exact-dyadic, bit-exact (percentile, linspace), "
-          "toleranced, call-site and own-oracle suites tie them to tools.py and its callers.",
+          "with -inf); source-derived: translator G16 compiles the whole bodies of effective_sample_size, compute_ess, "
+          "trim_weights and volume_variation from tools.py into Gen/ToolsSrc.lean on every run and Props/C20Source proves, for "
+          "every scalar type incl. Float and Rat and using no arithmetic law, that 18 model definitions (restructured to the "
+          "source's operand order) ARE the compiled functions, G1 regenerates TRIM_ESS / TRIM_BINS; exact-dyadic, bit-exact "
+          "(percentile, linspace), toleranced, call-site, signature and own-oracle suites tie them to tools.py and its callers "
+          "dynamically.",
          "For every non-negative weight vector with positive sum: ESS = (sum w)^2 / sum w^2 in [1, number of non-zero "
-         "weights], scale and permutation invariant, = N iff all weights equal; compute_ess incl. -inf log-weights; the "
-         "arguments at the ESS call sites are valid. Trimming, for every w, every ess, bins >= 1: one mask theta <= wn_i cuts "
-         "samples and weights (for every scalar instance), result non-empty, normalised, the survivors are the original pairs "
-         "with weight >= theta in order, ESS(trimmed) >= e ESS(all) for e <= 1 (the Trainer's constants regenerated by G1) "
-         "and never above ESS(all), exactly an initial segment of the grid passes so the result is THE largest passing grid "
-         "point, the loop stops by i = 0 (F28), scale invariance, what the caller's array holds afterwards, and Trainer.run "
-         "is this trimming on (history row, weight) pairs. Volume metric on the EXECUTABLE model: non-negative in every "
-         "branch, weight-scale invariant, complete case split (ridge iff the weighted points lie in a hyperplane; sentinel "
-         "iff they coincide), affine invariant on the full-rank branch under H_inv (Gauss-Jordan returns the inverse or none: "
-         "proved for d = 1, checked exactly per case for d >= 2); the ridge branch is NOT affine invariant (evaluated "
-         "witness). Floating point: ESS bounds with the explicit allowance (3N+4)u under H_rel, bit-identical ESS under "
-         "power-of-two scaling under H_scale - consequences checked on the real code every run; trimming and the metric in "
-         "floats are oracle-only.",
+         "weights], scale and permutation invariant, = N iff all weights equal; Trimming, for every w, every ess, bins >= 1: "
+         "one mask theta <= wn_i cuts samples and weights (every scalar instance), result non-empty, normalised, the "
+         "survivors are the original pairs with weight >= theta in order, ESS(trimmed) >= e ESS(all) for e <= 1 (the "
+         "Trainer's constants regenerated by G1) and never above ESS(all), the result is THE largest passing grid point, the "
+         "loop stops by i = 0 (F28); Trainer.run is this trimming on (history row, weight) pairs. Volume metric on the "
+         "EXECUTABLE model: non-negative in every branch, weight-scale invariant, complete case split (ridge iff the weighted "
+         "points lie in a hyperplane; sentinel iff they coincide), affine invariant on the full-rank branch under H_inv "
+         "(proved for d = 1, checked exactly per case for d >= 2); the ridge branch is NOT (witness). The four utilities as "
+         "modelled are the compiled current source incl. literals, operand order, loop and signatures (G16); hand-copied "
+         "remain numpy's library routines (np.sum as a left fold, percentile, linspace, mask indexing, inv, dot, eye, trace), "
+         "the rank test (a parameter = H_inv) and the loop's fuel. Floating point: ESS bounds with the allowance (3N+4)u "
+         "under H_rel, bit-identical ESS under power-of-two scaling under H_scale - checked on the real code every run; "
+         "trimming and the metric in floats are oracle-only.",
          "DESIGN.md §6 C20"),
 }
 # the former clause-round APPEND texts are folded into the level texts above
